@@ -48,10 +48,24 @@ type layoutCtx struct {
 	each string       // field being ranged over
 	vars map[types.Object]string
 	errs []string
+	// alias: a parameter of a folded helper stands for the caller's variable, a caller's variable for the
+	// helper's result
+	alias map[types.Object]types.Object
+	depth int
 }
 
 // valueFail records a finding about the value a field receives, not about where the bytes are read: the
 // layout is still extracted. Properties that only need the layout (C19) ignore these.
+func (lc *layoutCtx) setAlias(from, to types.Object) {
+	if from == nil || to == nil || from == to {
+		return
+	}
+	if lc.alias == nil {
+		lc.alias = map[types.Object]types.Object{}
+	}
+	lc.alias[from] = to
+}
+
 func (lc *layoutCtx) valueFail(n ast.Node, format string, args ...interface{}) {
 	lc.errs = append(lc.errs, fmt.Sprintf("VALUE: %s: %s", lc.p.Pos(n.Pos()), fmt.Sprintf(format, args...)))
 }
@@ -91,11 +105,24 @@ func findFuncDecl(pkg *packages.Package, name string) *ast.FuncDecl {
 }
 
 func (lc *layoutCtx) obj(e ast.Expr) types.Object {
+	e = unparen(e)
+	// &x and x denote the same variable for the purposes of the extraction (helpers take the cursor by address)
+	if u, ok := e.(*ast.UnaryExpr); ok && u.Op == token.AND {
+		e = unparen(u.X)
+	}
 	if id, ok := e.(*ast.Ident); ok {
-		if o := lc.info.Uses[id]; o != nil {
-			return o
+		o := lc.info.Uses[id]
+		if o == nil {
+			o = lc.info.Defs[id]
 		}
-		return lc.info.Defs[id]
+		for i := 0; i < 8 && o != nil; i++ {
+			n, ok := lc.alias[o]
+			if !ok {
+				break
+			}
+			o = n
+		}
+		return o
 	}
 	return nil
 }
@@ -482,7 +509,7 @@ func (lc *layoutCtx) mentions(n ast.Node, o types.Object) bool {
 	}
 	found := false
 	ast.Inspect(n, func(x ast.Node) bool {
-		if id, ok := x.(*ast.Ident); ok && (lc.info.Uses[id] == o || lc.info.Defs[id] == o) {
+		if id, ok := x.(*ast.Ident); ok && lc.obj(id) == o {
 			found = true
 		}
 		return !found
@@ -774,6 +801,8 @@ func itemWidth(it string) int64 {
 // decoders
 
 type decState struct {
+	madeWith map[types.Object]types.Object // local slice -> the variable giving its size in make()
+	elemListVar map[types.Object]string // local list of elements read by cursor.string(len_i): the length list's placeholder
 	lc        *layoutCtx
 	fixed     map[int64]string // absolute offset -> item (value bound later)
 	cursorAt  int64
@@ -822,90 +851,9 @@ func (ds *decState) stmts(list []ast.Stmt) {
 		case *ast.AssignStmt:
 			ds.assign(s)
 		case *ast.ForStmt:
-			// for i := 0; i < cnt; i++ { l := cur.int(); total += l; lens = append(lens, l) }
-			cntObj := types.Object(nil)
-			if be, ok := s.Cond.(*ast.BinaryExpr); ok && be.Op == token.LSS {
-				cntObj = lc.obj(be.Y)
-			}
-			if cntObj == nil {
-				lc.fail(s, "unrecognised loop")
-				continue
-			}
-			var listObj types.Object
-			var readVar types.Object
-			for _, b := range s.Body.List {
-				as, ok := b.(*ast.AssignStmt)
-				if !ok {
-					continue
-				}
-				if len(as.Rhs) == 1 {
-					if m, _, ok := ds.cursorCall(as.Rhs[0]); ok {
-						if cursorWidth[m] != "8" {
-							lc.fail(as, "argument lengths are not read as single octets")
-						}
-						readVar = lc.obj(as.Lhs[0])
-						continue
-					}
-					if c, ok := as.Rhs[0].(*ast.CallExpr); ok {
-						if id, ok := c.Fun.(*ast.Ident); ok && id.Name == "append" && len(c.Args) == 2 && readVar != nil && lc.obj(c.Args[1]) == readVar {
-							listObj = lc.obj(as.Lhs[0])
-						}
-					}
-				}
-			}
-			if listObj == nil {
-				lc.fail(s, "the length loop does not collect the lengths it reads")
-				continue
-			}
-			ph := ds.newPlaceholder("eachlen8")
-			ds.seq = append(ds.seq, ph)
-			ds.listVar[listObj] = ph
-			ds.countVar[cntObj] = ds.countVar[cntObj] // keep
-			if cph, ok := ds.lenVar[cntObj]; ok {
-				ds.bindings[cph+"#count-of"] = ph
-			}
+			ds.loop(s, s.Body, nil, nil, nil)
 		case *ast.RangeStmt:
-			// for _, n := range lens { a.Args = append(a.Args, Arg(cur.string(n))) }
-			listObj := lc.obj(s.X)
-			ph, ok := ds.listVar[listObj]
-			if !ok {
-				if lc.mentions(s.Body, ds.cursorObj) {
-					lc.fail(s, "the cursor is advanced in a loop that does not range over the collected lengths")
-				}
-				continue
-			}
-			nObj := types.Object(nil)
-			if s.Value != nil {
-				nObj = lc.obj(s.Value)
-			}
-			field := ""
-			for _, b := range s.Body.List {
-				as, ok := b.(*ast.AssignStmt)
-				if !ok || len(as.Lhs) != 1 || len(as.Rhs) != 1 {
-					continue
-				}
-				f, ok := lc.fieldOfRecv(as.Lhs[0])
-				if !ok {
-					continue
-				}
-				c, ok := as.Rhs[0].(*ast.CallExpr)
-				if !ok || len(c.Args) != 2 {
-					continue
-				}
-				inner := c.Args[1]
-				if x, _, ok := lc.conv(inner); ok {
-					inner = x
-				}
-				if m, args, ok := ds.cursorCall(inner); ok && m == "string" && len(args) == 1 && lc.obj(args[0]) == nObj {
-					field = f
-				}
-			}
-			if field == "" {
-				lc.fail(s, "the element loop does not append cursor.string(n) to a receiver field")
-				continue
-			}
-			ds.seq = append(ds.seq, "each:"+field+":bytes")
-			ds.bindings[ph] = field
+			ds.loop(s, s.Body, s.X, s.Key, s.Value)
 		case *ast.IfStmt:
 			// guards, the bad-secret test, Validate, and the documented SingleConnect statement
 			if lc.mentions(s.Body, ds.cursorObj) || (s.Init != nil && lc.mentions(s.Init, ds.cursorObj)) {
@@ -942,6 +890,9 @@ func (ds *decState) assign(s *ast.AssignStmt) {
 		return
 	}
 	rhs := unparen(s.Rhs[0])
+	if ds.inlineHelper(s, rhs) {
+		return
+	}
 	// cursor := readBuffer(data[k:]) | readBuffer(data)
 	if x, t, ok := lc.conv(rhs); ok && typeIs(t, modPath, "readBuffer") && len(s.Lhs) == 1 {
 		var off int64
@@ -961,6 +912,16 @@ func (ds *decState) assign(s *ast.AssignStmt) {
 	lhsField, lhsIsField := "", false
 	if len(s.Lhs) == 1 {
 		lhsField, lhsIsField = lc.fieldOfRecv(s.Lhs[0])
+	}
+	if c, ok := rhs.(*ast.CallExpr); ok && len(s.Lhs) == 1 && !lhsIsField {
+		if id, ok := c.Fun.(*ast.Ident); ok && id.Name == "make" && len(c.Args) >= 2 {
+			if so := lc.obj(c.Args[len(c.Args)-1]); so != nil {
+				if ds.madeWith == nil {
+					ds.madeWith = map[types.Object]types.Object{}
+				}
+				ds.madeWith[lc.obj(s.Lhs[0])] = so
+			}
+		}
 	}
 	val := rhs
 	if x, _, ok := lc.conv(rhs); ok {
@@ -1067,6 +1028,302 @@ func (ds *decState) assign(s *ast.AssignStmt) {
 		}
 	}
 	// count variable used as capacity: argCnt bound through the length loop (handled there)
+}
+
+// loop reads one loop of a decoder. Two kinds exist: a loop that reads one length octet per argument and
+// collects the lengths in a local list (by append or by index), and a loop that, for each collected length in
+// order, reads that many octets and adds them to a receiver field or to a local list (a folded helper's result).
+// The loop may be a counting loop or a range loop; the body must contain exactly one cursor read.
+func (ds *decState) loop(node ast.Stmt, body *ast.BlockStmt, rangeX, rangeKey, rangeVal ast.Expr) {
+	lc := ds.lc
+	var reads []*ast.CallExpr
+	ast.Inspect(body, func(n ast.Node) bool {
+		if c, ok := n.(*ast.CallExpr); ok {
+			if _, _, ok := ds.cursorCall(c); ok {
+				reads = append(reads, c)
+			}
+		}
+		return true
+	})
+	if len(reads) == 0 {
+		if lc.mentions(body, ds.cursorObj) {
+			lc.fail(node, "unrecognised loop")
+		}
+		return
+	}
+	if len(reads) != 1 {
+		lc.fail(node, "a loop with %d cursor reads", len(reads))
+		return
+	}
+	// no conditional reading inside the loop
+	for _, st := range body.List {
+		switch st.(type) {
+		case *ast.AssignStmt, *ast.IncDecStmt, *ast.DeclStmt, *ast.ExprStmt:
+		default:
+			if lc.mentions(st, ds.cursorObj) {
+				lc.fail(st, "the cursor is advanced under a condition inside a loop")
+				return
+			}
+		}
+	}
+	m, args, _ := ds.cursorCall(reads[0])
+	// where does the value read go?
+	var target ast.Expr // the list (ident or receiver field) that receives one element per iteration
+	for _, st := range body.List {
+		as, ok := st.(*ast.AssignStmt)
+		if !ok || len(as.Lhs) != 1 || len(as.Rhs) != 1 {
+			continue
+		}
+		rhs := unparen(as.Rhs[0])
+		carries := lc.mentionsCall(rhs, reads[0])
+		var readVar types.Object
+		if carries {
+			if _, isIdx := unparen(as.Lhs[0]).(*ast.IndexExpr); !isIdx {
+				if c, ok := rhs.(*ast.CallExpr); !ok || !isAppendCall(c) {
+					readVar = lc.obj(as.Lhs[0]) // l := cur.int()
+				}
+			}
+		}
+		if readVar != nil {
+			// find append(list, l) / list[i] = l further down
+			for _, st2 := range body.List {
+				as2, ok := st2.(*ast.AssignStmt)
+				if !ok || len(as2.Lhs) != 1 || len(as2.Rhs) != 1 {
+					continue
+				}
+				r2 := unparen(as2.Rhs[0])
+				if c, ok := r2.(*ast.CallExpr); ok && isAppendCall(c) && len(c.Args) == 2 && lc.obj(c.Args[1]) == readVar {
+					target = as2.Lhs[0]
+				}
+				if ix, ok := unparen(as2.Lhs[0]).(*ast.IndexExpr); ok && lc.obj(r2) == readVar {
+					target = ix.X
+				}
+			}
+			continue
+		}
+		if !carries {
+			continue
+		}
+		if c, ok := rhs.(*ast.CallExpr); ok && isAppendCall(c) && len(c.Args) == 2 {
+			target = as.Lhs[0]
+		} else if ix, ok := unparen(as.Lhs[0]).(*ast.IndexExpr); ok {
+			target = ix.X
+		}
+	}
+	if target == nil {
+		lc.fail(node, "the loop does not collect what it reads, one element per iteration")
+		return
+	}
+	switch m {
+	case "int", "byte":
+		ph := ds.newPlaceholder("eachlen8")
+		ds.seq = append(ds.seq, ph)
+		o := lc.obj(target)
+		if o != nil {
+			ds.listVar[o] = ph
+		} else {
+			lc.fail(node, "argument lengths are not collected in a local list")
+		}
+		// how many: the bound of a counting loop, or the size the list was made with
+		var cntObj types.Object
+		if fs, ok := node.(*ast.ForStmt); ok {
+			if be, ok := fs.Cond.(*ast.BinaryExpr); ok && be.Op == token.LSS {
+				cntObj = lc.obj(be.Y)
+				if cntObj == nil {
+					if c, ok := unparen(be.Y).(*ast.CallExpr); ok && len(c.Args) == 1 {
+						if id, ok := c.Fun.(*ast.Ident); ok && id.Name == "len" {
+							cntObj = ds.madeWith[lc.obj(c.Args[0])]
+						}
+					}
+				}
+			}
+		} else if rangeX != nil {
+			cntObj = ds.madeWith[lc.obj(rangeX)]
+		}
+		if cntObj == nil && o != nil {
+			cntObj = ds.madeWith[o]
+		}
+		if cph, ok := ds.lenVar[cntObj]; ok {
+			ds.bindings[cph+"#count-of"] = ph
+		}
+	case "uint16":
+		lc.fail(node, "argument lengths are not read as single octets")
+	case "string":
+		if len(args) != 1 {
+			lc.fail(node, "cursor.string arity")
+			return
+		}
+		// the length: the range value of a length list, or lens[i]
+		var listObj types.Object
+		arg := unparen(args[0])
+		if ix, ok := arg.(*ast.IndexExpr); ok {
+			listObj = lc.obj(ix.X)
+		} else if rangeVal != nil && rangeX != nil && lc.obj(arg) != nil && lc.obj(arg) == lc.obj(rangeVal) {
+			listObj = lc.obj(rangeX)
+		}
+		ph, ok := ds.listVar[listObj]
+		if !ok {
+			lc.fail(node, "the cursor is advanced in a loop that does not range over the collected lengths")
+			return
+		}
+		if f, isField := lc.fieldOfRecv(target); isField {
+			ds.seq = append(ds.seq, "each:"+f+":bytes")
+			ds.bindings[ph] = f
+		} else if o := lc.obj(target); o != nil {
+			if ds.elemListVar == nil {
+				ds.elemListVar = map[types.Object]string{}
+			}
+			ds.elemListVar[o] = ph
+		} else {
+			lc.fail(node, "the element loop does not add cursor.string(n) to a receiver field")
+		}
+	default:
+		lc.fail(node, "unknown cursor method %s in a loop", m)
+	}
+}
+
+func isAppendCall(c *ast.CallExpr) bool {
+	id, ok := c.Fun.(*ast.Ident)
+	return ok && id.Name == "append"
+}
+
+// mentionsCall: expression e contains call c.
+func (lc *layoutCtx) mentionsCall(e ast.Expr, c *ast.CallExpr) bool {
+	found := false
+	ast.Inspect(e, func(n ast.Node) bool {
+		if n == ast.Node(c) {
+			found = true
+		}
+		return !found
+	})
+	return found
+}
+
+// inlineHelper: `x, y := helper(&cur, n)` or `x := cur.helper(n)` where helper is a function of the module that
+// works on the cursor: its parameters are bound to the arguments, its statements are read as if they stood
+// here, and the variables assigned stand for what it returns. Only helpers of the simple shape 'statements,
+// then one final return of plain variables' are read; anything else is left to the caller (and reported).
+func (ds *decState) inlineHelper(s *ast.AssignStmt, rhs ast.Expr) bool {
+	lc := ds.lc
+	call, ok := rhs.(*ast.CallExpr)
+	if !ok || ds.cursorObj == nil || lc.depth > 3 {
+		return false
+	}
+	var fn *types.Func
+	var recvArg ast.Expr
+	switch f := call.Fun.(type) {
+	case *ast.Ident:
+		fn, _ = lc.info.Uses[f].(*types.Func)
+	case *ast.SelectorExpr:
+		fn, _ = lc.info.Uses[f.Sel].(*types.Func)
+		if fn != nil && fn.Type().(*types.Signature).Recv() != nil {
+			recvArg = f.X
+		}
+	}
+	if fn == nil || fn.Pkg() == nil || fn.Pkg().Path() != modPath {
+		return false
+	}
+	// does the cursor go in?
+	takesCursor := recvArg != nil && lc.obj(recvArg) == ds.cursorObj
+	for _, a := range call.Args {
+		if lc.obj(a) == ds.cursorObj {
+			takesCursor = true
+		}
+	}
+	if !takesCursor {
+		return false
+	}
+	if recvArg != nil {
+		if _, known := cursorWidth[fn.Name()]; known || fn.Name() == "string" {
+			return false // the cursor's own primitive methods
+		}
+	}
+	var fd *ast.FuncDecl
+	if recvArg != nil {
+		if n := namedOf(fn.Type().(*types.Signature).Recv().Type()); n != nil {
+			fd = findMethodDecl(lc.pkg, n.Obj().Name(), fn.Name())
+		}
+	} else {
+		fd = findFuncDecl(lc.pkg, fn.Name())
+	}
+	if fd == nil || fd.Body == nil || len(fd.Body.List) == 0 {
+		return false
+	}
+	ret, ok := fd.Body.List[len(fd.Body.List)-1].(*ast.ReturnStmt)
+	if !ok || len(ret.Results) != len(s.Lhs) {
+		lc.fail(s, "helper %s is not 'statements, then one return'", fn.Name())
+		return true
+	}
+	for _, st := range fd.Body.List[:len(fd.Body.List)-1] {
+		found := false
+		ast.Inspect(st, func(n ast.Node) bool {
+			if _, isRet := n.(*ast.ReturnStmt); isRet {
+				found = true
+			}
+			return !found
+		})
+		if found {
+			lc.fail(s, "helper %s returns from the middle", fn.Name())
+			return true
+		}
+	}
+	// bind parameters
+	var params []*ast.Ident
+	if fd.Recv != nil && len(fd.Recv.List) == 1 && len(fd.Recv.List[0].Names) == 1 {
+		lc.setAlias(lc.info.Defs[fd.Recv.List[0].Names[0]], lc.obj(recvArg))
+	}
+	for _, f := range fd.Type.Params.List {
+		params = append(params, f.Names...)
+	}
+	if len(params) != len(call.Args) {
+		lc.fail(s, "helper %s: arity", fn.Name())
+		return true
+	}
+	for i, pid := range params {
+		po := lc.info.Defs[pid]
+		arg := unparen(call.Args[i])
+		if ao := lc.obj(arg); ao != nil {
+			lc.setAlias(po, ao)
+			continue
+		}
+		// an argument that is itself a read of the cursor: n := cur.int()
+		if m, _, ok := ds.cursorCall(arg); ok {
+			if w, okw := cursorWidth[m]; okw {
+				ph := ds.newPlaceholder("len" + w)
+				ds.seq = append(ds.seq, ph)
+				ds.lenVar[po] = ph
+				continue
+			}
+		}
+		if _, isConst := constIntExpr(lc.info, arg); isConst {
+			continue
+		}
+		lc.fail(s, "helper %s: argument %s is outside what the extraction reads", fn.Name(), types.ExprString(arg))
+		return true
+	}
+	lc.depth++
+	ds.stmts(fd.Body.List[:len(fd.Body.List)-1])
+	lc.depth--
+	for i, l := range s.Lhs {
+		lo := lc.obj(l)
+		if lo == nil {
+			if f, isField := lc.fieldOfRecv(l); isField {
+				// a.Args = readArgs(...): the helper built the list it returns from the cursor
+				ro := lc.obj(ret.Results[i])
+				if ph, ok := ds.elemListVar[ro]; ok {
+					ds.seq = append(ds.seq, "each:"+f+":bytes")
+					ds.bindings[ph] = f
+					continue
+				}
+				lc.fail(s, "helper %s: its result does not come from the cursor", fn.Name())
+			}
+			continue
+		}
+		if ro := lc.obj(ret.Results[i]); ro != nil {
+			lc.setAlias(lo, ro)
+		}
+	}
+	return true
 }
 
 func versionDecoderItem(lc *layoutCtx) string {
